@@ -175,6 +175,22 @@ def _reg_once(check: Check, fi: FuncInfo, ff: FuncFlow, what: str):
   check.ob('R-REG', fi, txt(st)[:70], ok and arm and not in_loop and additive,
            f'exactly one additive regulariser term on the `regularizer is not None` arm (sites={len(calls)}, guarded={arm}, '
            f'in loop={in_loop}, additive={additive})', node=c)
+  # the term is added to the reduced scalar: it must not flow into a (masked) reduction afterwards
+  tgt = st.target if isinstance(st, ast.AugAssign) else (st.targets[0] if isinstance(st, ast.Assign) else None)
+  if isinstance(tgt, ast.Name):
+    st_node = ff.node_of(st)
+    REDUCE = {'jax.numpy.vdot', 'jax.numpy.sum', 'jax.numpy.mean', 'jax.numpy.dot', 'jax.numpy.average', 'jax.numpy.nanmean'}
+    bad = []
+    for n2, c2 in ff.calls():
+      if ff.ext(c2.func) in REDUCE or wmean.repo_fn(ff, c2) == SAFE_DIV:
+        for a in c2.args:
+          for x in ast.walk(a):
+            if isinstance(x, ast.Name) and x.id == tgt.id and isinstance(x.ctx, ast.Load) and any(d.node is st_node for d in ff.defs_for(x)):
+              bad.append(c2)
+    check.ob('R-REG.reduce', fi, f'{tgt.id} (with the regulariser) -> reductions', not bad,
+             'the regulariser is a per-batch scalar: once it has been added, the value must not go through the masked sum / mean '
+             '(it would be weighted by the number of real rows, and vanish on a fully padded batch)' +
+             (f': flows into {txt(bad[0])[:60]}' if bad else ''), node=bad[0] if bad else None)
 
 
 def _average_loss(check: Check):
@@ -326,6 +342,27 @@ def _full_batch_gradient(check: Check):
   check.floor('R-WMEAN.pair-sum', 'full-batch gradient sites', n, 2)
 
 
+def _wired(check: Check, repo, step_fi: FuncInfo):
+  """A factory whose per-batch step accumulates the regulariser is only harmless while nobody hands it one."""
+  sc = step_fi.scope.parent
+  fac = step_fi.module.funcs_by_node.get(sc.node) if sc is not None and sc.kind == 'function' else None
+  if fac is None or 'regularizer' not in fac.params:
+    return
+  for m in repo.library_modules():
+    for g in m.functions():
+      gff = FuncFlow.of(repo, g)
+      for _, c in gff.calls():
+        r = gff.callee(c)
+        if r.kind == 'func' and r.func is fac:
+          from fjsa.flow import call_args
+          b = call_args(c, fac.positional_params)
+          v = b.get('regularizer')
+          passed = v is not None and not (isinstance(v, ast.Constant) and v.value is None)
+          check.ob('R-REG.wire', g, txt(c)[:90], not passed,
+                   f'{fac.qualname} adds the regulariser once per padded batch (see the known finding); passing a regulariser here makes '
+                   'the per-domain loss sums depend on the padded batch size', node=c)
+
+
 def _regularizer_sites(check: Check):
   """Every call of a `regularizer` callable, classified by where it happens."""
   repo = check.repo
@@ -358,6 +395,8 @@ def _regularizer_sites(check: Check):
           check.ob('R-REG', fi, 'regularizer(params) added inside the per-batch step to a carried sum', not accumulated,
                    'the regulariser is added inside a per-batch step to a quantity that is then summed across batches: the '
                    'total depends on the number of batches (batch geometry), not only on the examples', node=c)
+          if accumulated:
+            _wired(check, repo, fi)
         else:
           check.ob('R-REG.site', fi, txt(c), True, 'regulariser applied outside any per-batch accumulation', nontrivial=False)
   check.floor('R-REG', 'regulariser call sites', n, 4)
